@@ -2159,7 +2159,8 @@ fn judge_rib(ps: &mut Parsers, rib: &TdRib, peers: &[TdPeer], table: &[PeerRead]
         let got_nh_bytes = mp_nh.or(got_nh.map(|n| nh_bytes(&n)));
         let want_nh_bytes = want.nexthop.as_ref().map(nh_bytes);
         if got_nh_bytes != want_nh_bytes {
-            return bad("nexthop-differs", "next hop of a RIB entry differs from the path's next hop", format!("entry {}: got {:?} want {}", n, got_nh_bytes.map(|x| hex(&x)), nh_str(&want.nexthop)));
+            let cls = if !rib.v6 && !matches!(want.nexthop, Some(Nexthop::V4(_)) | None) { "nexthop-differs/ipv4-prefix-v6-nexthop" } else { "nexthop-differs" };
+            return bad(cls, "next hop of a RIB entry differs from the path's next hop", format!("entry {}: got {:?} want {}", n, got_nh_bytes.map(|x| hex(&x)), nh_str(&want.nexthop)));
         }
         n += 1;
     }
